@@ -440,6 +440,12 @@ class ModelMixin:
     def b_re_compile(self, a, k):
         return RegexV(a[0])
 
+    def b_json_dumps(self, a, k):
+        v = a[0]
+        if isinstance(v, SortedMap):
+            return JsonText(v)
+        raise Unsupported("json.dumps of a value other than the sorted list of pairs")
+
     def b_typing_cast(self, a, k):
         return a[1]
 
@@ -604,6 +610,19 @@ class ModelMixin:
                 return Sym("bool", z3.Function("startswith!" + str(p), T.Key, T.B)(self.as_key(recv)))
             if meth in ("strip", "splitlines", "join", "format"):
                 return Sym("val", self.fresh("str", T.Val))
+        if isinstance(recv, JsonText) and meth == "encode":
+            sm = recv.sm
+            e = sm.elem
+            k = sm.bv
+            # shape check: the element for key k is the singleton mapping {k: <value>}
+            if isinstance(e, ArrDict):
+                kt = T.val_of_key(k)
+                okp = z3.simplify(e.present == z3.Store(z3.K(T.Val, z3.BoolVal(False)), kt, True))
+                if z3.is_true(okp):
+                    vt = z3.simplify(e.vals[kt])
+                    self.event("fingerprint", sm.ks, k, vt)
+                    return FingerprintV(sm.ks, k, vt)
+            raise Unsupported("fingerprint shape: not a sorted list of {key: value} singletons")
         if isinstance(recv, LoggerV) and meth == "log":
             self.event("emit", recv.name, args[0], args[1])
             return None
@@ -773,3 +792,22 @@ class LoggerV:
 class RegexV:
     def __init__(self, pat):
         self.pat = pat
+
+
+class SortedMap:
+    """[elem(k) for k in sorted(ks)]"""
+
+    def __init__(self, ks, bv, elem):
+        self.ks, self.bv, self.elem = ks, bv, elem
+
+
+class JsonText:
+    def __init__(self, sm):
+        self.sm = sm
+
+
+class FingerprintV:
+    """json.dumps([{k: value(k)} for k in sorted(ks)]).encode()"""
+
+    def __init__(self, ks, k, value):
+        self.ks, self.k, self.value = ks, k, value
